@@ -86,18 +86,18 @@ def run(ck):
     exe, free, hb = exes["h_c19"], exes["h_c19_free"], exes["h_c19_hb"]
     ck.confirm = _tsan_confirm(ck, ck.confirm)
     if ck.tier == "quick":
-        P, dl, iters = 2, 150, 300
+        P, dl, iters, el_ms = 2, 150, 300, 12000
     else:
-        P, dl, iters = 3, 1500, 1000
+        P, dl, iters, el_ms = 3, 1500, 1000, 40000
     ck.explore(exe, ["--body=1", "--waits=3"], "post", budget=P, deadline_s=dl)
     ck.explore(exe, ["--body=2"], "queue", budget=P, deadline_s=dl)
     ck.explore(exe, ["--body=3"], "worker", budget=P + 1, deadline_s=dl)
     ck.explore(exe, ["--body=4"], "timer", budget=P + 1, deadline_s=dl)
     ck.explore(exe, ["--body=5", "--waits=%d" % (P + 4)], "console", budget=P, deadline_s=dl)
     sched_parts = list(ck.parts)
-    ck.enum(free, ["--iters=%d" % iters], "tsan", batch=1, deadline_s=dl, timeout_ms=180000, rotate=0)
+    ck.enum(free, ["--iters=%d" % iters], "tsan", batch=1, deadline_s=dl, timeout_ms=el_ms, rotate=0)
     tsan = ck.parts[-1] if len(ck.parts) > len(sched_parts) else {}
-    ck.enum(hb, ["--iters=%d" % iters], "tsan-backend", batch=1, deadline_s=dl, timeout_ms=180000, rotate=0)
+    ck.enum(hb, ["--iters=%d" % iters], "tsan-backend", batch=1, deadline_s=dl, timeout_ms=el_ms, rotate=0)
     tsb = ck.parts[-1] if ck.parts and ck.parts[-1].get("part") == "tsan-backend" else {}
     extra = {
         "preemption_bound": {p["part"]: p.get("budget_completed") for p in sched_parts},
